@@ -106,7 +106,7 @@ def conf_full(seed, knobs=None):
     s.append({"op": "boot"})
     s.append({"op": "tick", "n": rng.randint(0, 8)})
     cmds = ["incr", "decr", "set_np", "set_multi", "restart", "reload", "kill", "stop", "start", "status", "numprocesses",
-            "signal", "list"]
+            "signal", "list", "get", "globaloptions", "listsockets"]
     p = {"cmds": k.get("cmds", cmds), "childsel": k.get("childsel", 0.2), "patterns": k.get("patterns", 0.15)}
     for _ in range(rng.randint(2, k["steps"])):
         r = rng.random()
@@ -158,7 +158,7 @@ PROFILES.update({
              "kcall_deaths": 0.6, "cmds": ["start", "stop", "incr", "decr", "kill", "restart", "list", "numprocesses"],
              "norespawn": True},
     "overlap": {"Gs": [0.2, 0.3, 0.5, 1.0], "cmds": ["kill", "kill", "signal", "stop", "restart", "reload", "start", "incr", "decr", "decr", "set_np", "status", "list",
-                         "numprocesses"], "stubborn": 0.6, "partial": 0.5, "steps": 20},
+                         "numprocesses", "get", "globaloptions", "listsockets", "options", "stats"], "stubborn": 0.6, "partial": 0.5, "steps": 20},
     "events": {"cmds": ["incr", "decr", "set_np", "reload", "kill", "stop", "start", "restart"], "kcall_deaths": 0.5,
                "steps": 30},
     "excl": {"cmds": ["start", "stop", "restart", "reload", "incr", "decr", "set_np", "set_opt", "set_opt", "kill"], "stubborn": 0.5, "partial": 0.7,
